@@ -200,6 +200,7 @@ def emit_harnesses(methods):
     o = [HEADER, "use crate::calls::*;\n"]
     names = []
     any_reps = set()
+    legal_seen = []
     for m in methods:
         if m.kind in ("simple", "movimm", "mem"):
             uw = int(m.fam.get("unwind", UNWIND[m.kind]))
@@ -220,6 +221,7 @@ def emit_harnesses(methods):
 """) % (uw, m.name, decl_symbolic(m), pre, m.name, m.args(), m.name, m.args(), m.name, m.args(), m.name, m.args()))
             legal_idx = len(names)
             names.append(("legal__" + m.name, m.name, "legal", "quick"))
+            legal_seen.append(legal_idx)
             o.append(("""#[kani::proof]
 #[kani::unwind(%d)]
 """ + stub + """fn any__%s() {
@@ -253,6 +255,16 @@ def emit_harnesses(methods):
             txt, ns = emit_label_harnesses(m)
             o.append(txt)
             names.extend(ns)
+    # time budget of the quick tier (a fresh-copy run stops a quick command after 15 minutes; one harness costs ~40 s
+    # of one core): of the methods that are not a family representative every third keeps its legal__ harness in the
+    # quick tier (deterministic: position in source order); the thorough tier runs legal__ and any__ for every method
+    k = 0
+    for idx in legal_seen:
+        n0 = names[idx]
+        if n0[3] == "quick":
+            if k % 3 != 0:
+                names[idx] = (n0[0], n0[1], n0[2], "thorough")
+            k += 1
     return "\n".join(o), names
 
 
